@@ -120,16 +120,19 @@ func c20Pairing(v *verifOut) {
 							continue
 						}
 						si := f.si
-						entries := []c07Stim{{Op: "newview", SI: &si}, {Op: "adv", SI: &si}}
+						// every message in the form its real entry point produces: server.serviceImpl.NewView leaves
+						// FromNetwork false (first entry), the twins sender sets it (second); a TimeoutMsg carries a
+						// message signature only under the aggregate timeout rule
+						entries := []c07Stim{{Op: "newview", SI: &si, NoNet: true}, {Op: "newview", SI: &si}, {Op: "adv", SI: &si}}
 						if n >= 2 && si.QC != nil {
-							entries = append(entries, c07Stim{Op: "timeout", View: 1, From: 2, Sig: "ok", SI: &si})
+							entries = append(entries, c07Stim{Op: "timeout", View: 1, From: 2, Sig: "ok", SI: &si, NoMsgSig: !agg})
 						}
 						if f.name == "qc-k" {
 							// a proposal carries its QC only: the k-signer QC on its own
 							entries = append(entries, c07Stim{Op: "propose", View: wv + 1, From: 2, Parent: c07Blk(wv), SI: &c07SISpec{QC: si.QC}})
 						}
 						if !v.Thorough() && k != q && k != q-1 && k != n && k != 1 && (k+int(wv))%3 != 0 {
-							entries = entries[:1] // away from the threshold the quick tier uses one entry
+							entries = entries[:2] // away from the threshold the quick tier uses the two new-view forms
 						}
 						for _, st := range entries {
 							w := c07NewWorld(u, agg, 2, c07Opt{stored: c07Stored, remote: c07Remote})
@@ -143,7 +146,7 @@ func c20Pairing(v *verifOut) {
 							}
 							meta := map[string]any{"component": "synchronizer", "family": f.name, "entry": st.Op, "timeout_rule": rule, "scheme": scheme,
 								"n": n, "quorum": q, "k": k, "view_of_k_signer_certificate": wv, "stimulus": st, "before": before.term(), "after": after.term()}
-							v.Seen(fmt.Sprintf("pair/%s/%s/%s/%d/%d/%d", f.name, st.Op, rule, n, k, wv), k == q || k == q-1, meta)
+							v.Seen(fmt.Sprintf("pair/%s/%s/%v/%s/%d/%d/%d", f.name, st.Op, st.NoNet, rule, n, k, wv), k == q || k == q-1, meta)
 							v.Count("pairing:" + f.name + ":" + st.Op)
 							if pan != nil {
 								v.Oracle(false, "threshold:synchronizer:panic", fmt.Sprint(pan), meta)
